@@ -131,13 +131,15 @@ impl Transport {
 }
 
 fn injected(k: usize, kind: u8) -> io::Error {
-    // never Interrupted (callers are specified to retry it; see Fault::InterruptedRead) nor
-    // WouldBlock (the transport is blocking)
+    // (codes 5 and 6 are only used where the case says so: a blocking socket with a send/receive
+    // timeout reports WouldBlock or TimedOut; Interrupted is what std's write_all/read_exact retry)
     let kind = match kind {
         1 => io::ErrorKind::UnexpectedEof,
         2 => io::ErrorKind::Other,
         3 => io::ErrorKind::BrokenPipe,
         4 => io::ErrorKind::TimedOut,
+        5 => io::ErrorKind::WouldBlock,
+        6 => io::ErrorKind::Interrupted,
         _ => io::ErrorKind::ConnectionReset,
     };
     io::Error::new(kind, format!("injected transport fault at op {}", k))
